@@ -308,6 +308,26 @@ pub fn size_boundary_docs() -> Vec<Vec<Node>> {
 /// Documents in which a payload of 20..45 bytes (larger than a 16-byte initial capacity: the reader's buffer has to
 /// grow while masters are open) sits inside one to five known-size masters, away from the start of the stream, and
 /// is followed by elements inside and right behind those masters (global ones too).
+/// Root[leaf] (Root known- and unknown-size) for every payload class of every data type x every explicit size-field
+/// width 1..8 on the leaf.
+pub fn payload_width_docs() -> Vec<Vec<Node>> {
+    use crate::spec::*;
+    let mut out = Vec::new();
+    for (id, ty) in [(ID_U, Ty::U), (ID_I, Ty::I), (ID_F, Ty::F), (ID_S, Ty::S), (ID_B, Ty::B)] {
+        for v in crate::gen::payload_classes(ty, true) {
+            for w in 1..=8u8 {
+                let mut leaf = Node::leaf(id, v.clone());
+                leaf.size = SizeEnc::Width(w);
+                out.push(vec![Node::master(ID_ROOT, vec![leaf.clone()])]);
+                let mut unk = Node::master(ID_ROOT, vec![leaf]);
+                unk.size = SizeEnc::Unknown(8);
+                out.push(vec![unk]);
+            }
+        }
+    }
+    out
+}
+
 pub fn doc_has_raw(doc: &[Node]) -> bool {
     let mut r = false;
     crate::refmodel::visit(doc, &mut |n, _| {
